@@ -82,6 +82,14 @@ def main():
                     for mi in (False, True):
                         r["json%d%d" % (so, mi)] = items_of(o.as_json(sort=so, minimal=mi))
                 results.append(["ok", r])
+            elif kind == "S":   # scores / severities only, for bulk comparison
+                ver, s = op[1], op[2]
+                try:
+                    o = cls[ver](s)
+                except Exception as e:  # noqa
+                    results.append(["err", errname(e)])
+                    continue
+                results.append(["ok", [fmt(x) for x in o.scores()], list(o.severities())])
             elif kind == "X":
                 res = parse_cvss_from_text(op[1])
                 results.append(["ok", sorted([type(o).__name__, o.clean_vector()] for o in res)])
